@@ -31,6 +31,27 @@ theorem const_udp_buffer : Gen.udpBufferSize = 2048 := by decide
 /-- the largest payload that fits both buffers is 2040 = udpBufferSize − smSaltLen -/
 theorem const_max_payload : Gen.udpBufferSize - Gen.smSaltLen = 2040 := by decide
 
+/-! ### why one WriteTo and one ReadFrom iteration may be taken as atomic against each other
+
+  The wrapper runs Obfuscate under `writeMutex` and Deobfuscate under `readMutex` — two
+  DIFFERENT mutexes, so a writer and a reader do run at the same time — and both derive the
+  packet key through the obfuscator's single scratch buffer `keyInput` (PSK ‖ salt slot:
+  `copy(keyInput[len(PSK):], salt); Sum256(keyInput)`).  Without a lock of its own a WriteTo
+  could overwrite the salt slot between a concurrent ReadFrom's copy and the end of its hash
+  (and vice versa): the packet would be XORed with the keystream of another salt.  Hence BOTH
+  directions must hold the obfuscator's own mutex `lk` around the key derivation; that is
+  what makes the `send` and `recv` steps of `concurrent_roundtrip` atomic.  The obligation
+  below pins it on the regenerated go/ast facts (harness/extras/verifh/c13_facts.go): exactly
+  one method touches `keyInput`, Obfuscate and Deobfuscate each use it once, inside a
+  top-level `o.lk.Lock() … o.lk.Unlock()` region, never outside, and nobody else uses it.
+  The harness op `duplex` (a receive loop against a send loop on one socket, every packet
+  spec-checked in both directions) is the dynamic counterpart. -/
+theorem key_scratch_buffer_locked_in_both_directions :
+    Gen.smKeyInputMethods = 1 ∧ Gen.smOtherKeyUsers = 0 ∧
+    Gen.smObfuscateKeyUsesLocked = 1 ∧ Gen.smObfuscateKeyUsesUnlocked = 0 ∧ Gen.smObfuscateLockNested = 0 ∧
+    Gen.smDeobfuscateKeyUsesLocked = 1 ∧ Gen.smDeobfuscateKeyUsesUnlocked = 0 ∧ Gen.smDeobfuscateLockNested = 0 := by
+  decide
+
 /-! ### the Lean BLAKE2b is BLAKE2b (kernel-evaluated known answers) and is 32 bytes long -/
 theorem blake2b_rfc7693_abc : toHex (Blake2b.hash 64 (bytesOfString "abc")) =
     "ba80a53f981c4d0d6a2797b69f12f6e94c212f14685ac4b74b12bb6fdbffa2d17d87c5392aab792dc252d5de4533cc9518d38aa8dbf1925ab92386edd4009923" :=
@@ -212,7 +233,8 @@ theorem short_never_surfaces (H : Bytes → Bytes) (psk : Bytes) (cap : Nat) (q 
     ≥ 2040: what the readers have received so far, in order, followed by what the queued
     datagrams will still yield, is exactly what the writers sent, in the order of their
     lock regions — nothing lost, duplicated, reordered, altered, and no junk; and every
-    WriteTo reported |p|. -/
+    WriteTo reported |p|.  (Atomicity of `send` against `recv`: see
+    `key_scratch_buffer_locked_in_both_directions` above.) -/
 theorem concurrent_roundtrip (H : Bytes → Bytes) (psk : Bytes) (sched : List Label)
     (hk : 4 ≤ psk.length) (h : ∀ l ∈ sched, l.ok) :
     (run H psk sched).got.map Prod.snd ++ deliveries H psk 2040 (run H psk sched).queue = sentOf sched ∧
